@@ -9,36 +9,15 @@ Theorem C15_generator_facts : generator_facts.
 Proof. exact generator_facts_hold. Qed.
 Print Assumptions C15_generator_facts.
 
-(* For ALL programs (any nesting depth) obeying the placement rules [wf_prog] - break/continue inside a loop of
-   the same function, `in` inside a do-expression, deferred blocks that do not jump out of themselves and
-   contain no further defer, <close> types resolved in declaration order - and ALL oracles:
-   the emitted code (static stitching of the clean-up, no defer mechanism) produces exactly the trace and
-   result of the reference semantics (every executed defer once, innermost first, after the returned value
-   was evaluated; `until` condition before the body's defers). *)
-Theorem C15_defer_compile_correct_partial : forall p x, wf_prog p = true ->
-  tgt_sem (compile p) x = ref_sem p x.
-Proof. exact defer_compile_correct_partial. Qed.
-Print Assumptions C15_defer_compile_correct_partial.
-
-(* Full strength (every program the analyzer's placement rules accept) is FALSE for the unchanged generator *)
-Theorem C15_defer_compile_correct_refuted : ~ defer_compile_correct_full.
-Proof. exact defer_compile_correct_refuted. Qed.
-Print Assumptions C15_defer_compile_correct_refuted.
-
-(* witness 2: `return` inside a deferred block skips the other defers of the scope being closed *)
-Theorem C15_refuted_escape :
-  accepted witness_escape = true /\
-  tgt_sem (compile witness_escape) (st0 [1]) <> ref_sem witness_escape (st0 [1]).
-Proof. exact refuted_escape. Qed.
-Print Assumptions C15_refuted_escape.
-
-(* ... witness 3: and not otherwise: when the type of an earlier variable of the declaration is resolved in
-   a later pass than that of a later variable, its defer is injected after it and it is closed FIRST *)
-Theorem C15_refuted_close_order :
-  accepted witness_close_order = true /\
-  tgt_sem (compile witness_close_order) (st0 []) <> ref_sem witness_close_order (st0 []).
-Proof. exact refuted_close_order. Qed.
-Print Assumptions C15_refuted_close_order.
+(* FULL STRENGTH.  For ALL programs (any nesting depth, defers nested in defers, <close> declarations, every
+   combination of exits) that the analyzer accepts - break/continue inside a loop of the same function, `in`
+   inside a do-expression, no return/break/continue/in leaving a defer block - and ALL oracles: the emitted
+   code (static stitching of the clean-up, no defer mechanism) produces exactly the trace and result of the
+   reference semantics (every executed defer once, innermost first, after the returned value was
+   evaluated; `until` condition before the body's defers; <close> variables in reverse declaration order). *)
+Theorem C15_defer_compile_correct : forall p x, accepted p = true -> tgt_sem (compile p) x = ref_sem p x.
+Proof. exact defer_compile_correct. Qed.
+Print Assumptions C15_defer_compile_correct.
 
 (* <close>: the defers injected by visit_close for `local a <close>, b <close>, ... = ...` close the
    variables in reverse declaration order, after everything registered later in the block *)
@@ -48,8 +27,7 @@ Theorem C15_close_desugar : forall lp ks rest ds fin x,
 Proof. exact close_defers_sem. Qed.
 Print Assumptions C15_close_desugar.
 
-(* visit_close as a whole preserves the meaning of programs whose <close> variables get their types
-   resolved in declaration order (part of the placement rules [wf]) ... *)
+(* visit_close as a whole preserves the meaning of programs *)
 Theorem C15_desugar_preserves_semantics : forall b L D F N, wf_block L D F N b = true ->
   forall lp ds fin x, rstmts lp (desugar_block b) ds fin x = rstmts lp b ds fin x.
 Proof. exact (proj1 (proj2 desugar_sem)). Qed.
@@ -57,16 +35,16 @@ Print Assumptions C15_desugar_preserves_semantics.
 
 (* Corollaries about the trace of the emitted code (G d = defer d registered, U d = deferred block d starts):
    read chronologically, every U d pops the most recently registered pending d. *)
-Theorem C15_lifo_order : forall p x, wf_prog p = true -> run_discipline x (tgt_sem (compile p) x).
+Theorem C15_lifo_order : forall p x, accepted p = true -> run_discipline x (tgt_sem (compile p) x).
 Proof. exact lifo_order. Qed.
 Print Assumptions C15_lifo_order.
 
-Theorem C15_each_defer_once : forall p x, wf_prog p = true -> fst (tgt_sem (compile p) x) = Nrm ->
+Theorem C15_each_defer_once : forall p x, accepted p = true -> fst (tgt_sem (compile p) x) = Nrm ->
   exists new, tr (snd (tgt_sem (compile p) x)) = new ++ tr x /\ stack_run (rev new) [] = Some [].
 Proof. exact each_defer_once. Qed.
 Print Assumptions C15_each_defer_once.
 
-Theorem C15_unreached_defer_never : forall p x, wf_prog p = true ->
+Theorem C15_unreached_defer_never : forall p x, accepted p = true ->
   exists new, tr (snd (tgt_sem (compile p) x)) = new ++ tr x /\ stack_run (rev new) [] <> None.
 Proof. exact unreached_defer_never. Qed.
 Print Assumptions C15_unreached_defer_never.
@@ -82,6 +60,6 @@ Theorem C15_ref_never_out_of_fuel : forall p x, fst (ref_sem p x) <> Fuel.
 Proof. exact ref_never_out_of_fuel. Qed.
 Print Assumptions C15_ref_never_out_of_fuel.
 
-Theorem C15_tgt_never_out_of_fuel : forall p x, wf_prog p = true -> fst (tgt_sem (compile p) x) <> Fuel.
+Theorem C15_tgt_never_out_of_fuel : forall p x, accepted p = true -> fst (tgt_sem (compile p) x) <> Fuel.
 Proof. exact tgt_never_out_of_fuel. Qed.
 Print Assumptions C15_tgt_never_out_of_fuel.
